@@ -159,6 +159,9 @@ func main() {
 			ops = append(ops, "put-empty-c") // (shadow mode loses live empty values anyway: known finding of C01/C11/C20)
 		}
 		parts = append(parts, part{"loop-" + name + "-sweeper-enabled", loopworld.Cfg{Native: native, Sweeper: true, Remote2: true, MaxVisits: 1, AppOps: ops}})
+		// ... and its timer fires (an environment answer) while a stale deletion marker exists: the sweeper's own write
+		// transaction lands between application commits and the loop's poll, and must not swallow them
+		parts = append(parts, part{"loop-" + name + "-sweeper-fires", loopworld.Cfg{Native: native, Sweeper: true, SweeperFires: true, MaxVisits: 1, AppOps: []string{"del-a", "put-b"}}})
 	}
 	// cheapest parts first: each part may use an equal share of what is left, so the expensive ones get what the cheap ones save
 	{
